@@ -3,8 +3,8 @@ import collections, json, os, random, re, shutil, subprocess, time
 import common
 
 PID = "C12"
-FN_ARITY = {"sq": 1, "madd": 2, "pair": 2, "nest": 2, "perm": 2, "perm2": 2}
-VALUE_DEPENDENT = ("poly", "perm", "perm2")
+FN_ARITY = {"sq": 1, "madd": 2, "pair": 2, "nest": 2, "perm": 2, "perm2": 2, "layout": 2}
+VALUE_DEPENDENT = ("poly", "perm", "perm2", "layout")
 
 
 def gen_scenario(rnd, special=None):
@@ -21,7 +21,7 @@ def gen_scenario(rnd, special=None):
             ar = FN_ARITY.get(fn, 1)
             d = "r%d" % k; k += 1
             steps.append(["call", fn, [rnd.choice(names) for _ in range(ar)], d])
-            names += ["%s0" % d, "%s1" % d] if fn == "pair" else [d]
+            names += ["%s0" % d, "%s1" % d] if fn in ("pair", "layout") else [d]
         else:
             steps.append(["val", rnd.choice(names)])
     steps.append(["val", names[-1]])
@@ -150,7 +150,7 @@ def run(tier, seed):
     n = 40 if tier == "quick" else 400
     scs = [json.load(open(os.path.join(common.VERIF, "corpus", PID, f))) for f in sorted(os.listdir(os.path.join(common.VERIF, "corpus", PID))) if f.endswith(".json")]
     for i in range(n):
-        scs.append(gen_scenario(rnd, special=("iszero" if i % 13 == 5 else "poly" if i % 13 == 9 else "perm" if i % 13 == 2 else "perm2" if i % 13 == 11 else None)))
+        scs.append(gen_scenario(rnd, special=("iszero" if i % 13 == 5 else "poly" if i % 13 == 9 else "perm" if i % 13 == 2 else "perm2" if i % 13 == 11 else "layout" if i % 13 == 7 else None)))
     from concurrent.futures import ThreadPoolExecutor
     with ThreadPoolExecutor(common.NPROC) as ex:
         results = list(ex.map(run_scenario, scs))
